@@ -5,6 +5,8 @@ patch="$1"; tier="$2"; shift 2
 cd /verif
 if ! git -C /repo diff --quiet; then echo "repo not clean"; exit 2; fi
 git -C /repo apply "$patch" || { echo "patch does not apply"; exit 2; }
+# evidence written by runs on a mutated tree must not replace the evidence of the unchanged tree
+bak=$(mktemp -d); cp -a evidence/. "$bak"/ 2>/dev/null
 for c in "$@"; do
   out=$(./check "$c" --tier "$tier" 2>&1); rc=$?
   n=$(echo "$out" | grep -c "^VIOLATION")
@@ -12,4 +14,5 @@ for c in "$@"; do
   echo "$out" | grep -A1 "^VIOLATION" | grep "class=" | sed -E 's/case=(.{0,90}).*:: / \1 :: /' | cut -c1-330 | head -3
 done
 git -C /repo checkout -- . 
+cp -a "$bak"/. evidence/ 2>/dev/null; rm -rf "$bak"; rm -f replays/*.json
 git -C /repo status --short | head -3
